@@ -303,7 +303,9 @@ def run_check(pid, tier, seed, replay=None):
     t0 = time.time()
     cfg = load_cfg(pid)
     known = load_known()
-    work = os.path.join(WORK, pid + (("_alt%d" % os.getpid()) if ALT else ""))
+    # one private work directory per invocation (concurrent checks of one property must not share files);
+    # VERIF_KEEP=1 keeps it under .work/<id>_keep for inspection
+    work = os.path.join(WORK, "%s_%s%d" % (pid, "alt" if ALT else "run", os.getpid()))
     shutil.rmtree(work, ignore_errors=True)
     os.makedirs(work, exist_ok=True)
     log = []
@@ -516,11 +518,18 @@ def run_check(pid, tier, seed, replay=None):
     if rc and broken:
         for b in broken:
             print("  broken:", b["kind"], "-", str(b["detail"])[:300])
-    if not os.environ.get("VERIF_KEEP"):
-        for d in glob.glob(os.path.join(work, "run_*")) + glob.glob(os.path.join(work, "search_*")):
-            shutil.rmtree(d, ignore_errors=True)
-        if ALT:
-            shutil.rmtree(work, ignore_errors=True)
+    keep = os.path.join(WORK, pid + "_keep")
+    shutil.rmtree(keep, ignore_errors=True)
+    if os.environ.get("VERIF_KEEP"):
+        shutil.move(work, keep)
+    else:
+        # keep only the log of the last run of this property
+        os.makedirs(keep, exist_ok=True)
+        try:
+            shutil.copyfile(os.path.join(work, "log.txt"), os.path.join(keep, "log.txt"))
+        except OSError:
+            pass
+        shutil.rmtree(work, ignore_errors=True)
     return rc
 
 
